@@ -240,6 +240,60 @@ def boundary_scripts(rng):
     return out
 
 
+def tiny_scripts(rng):
+    """deterministic: every zlib-based encoding x every compression level 0..9 (and every other encoder
+    once per server depth) gets tiny NON-SOLID rectangles as 2nd, 3rd, ... update of the connection, with
+    data lengths on both sides of Tight's 12-byte "too short to compress" threshold and of Zlib's
+    17-byte one: full colour 1x1..5x1 / 1x3, two-colour strips 8/16/88/89/95/96/97 x 1, 9x2, small indexed."""
+    out = []
+    W, H = 120, 44
+    fmts = ["server", "rgb888le", "rgb565le", "bgr888be", "bgr233", "rgb555be", "rgbx_le", "server", "rgb332", "rgb101010"]
+    full = [(1, 1), (2, 1), (3, 1), (4, 1), (5, 1), (1, 3), (2, 2), (1, 13), (6, 2), (17, 1)]
+    strips = [(8, 1), (16, 1), (88, 1), (89, 1), (95, 1), (96, 1), (97, 1), (9, 2), (7, 1), (1, 9), (24, 4), (3, 1)]
+    small = [(4, 3), (11, 1), (12, 1), (13, 1), (3, 4), (6, 2), (5, 5), (2, 1)]
+
+    def reqs(sizes, k):
+        ls = []
+        for j, (w, h) in enumerate(sizes):
+            # interior (below the soft cursor), right edge, bottom edge, top-left corner in turn
+            pos = [(30 + j, 24 + (j % 7)), (W - w, 26 + j % 5), (13 + 2 * j, H - h), (0, 0)][(j + k) % 4]
+            x, y = min(pos[0], W - w), min(pos[1], H - h)
+            ls.append("req 0 %d %d %d %d" % (x, y, w, h))
+        return ls
+
+    def script(sb, fmtn, enc_line, k, encname):
+        lines = ["screen %d %d %d" % (W, H, sb), "client"]
+        if fmtn != "server":
+            lines.append("fmt " + " ".join(str(v) for v in FORMATS[fmtn]))
+        lines.append(enc_line)
+        lines.append("paint noise %d 0 0 %d %d 1 0" % (rng.randrange(1 << 30), W, H))
+        lines.append("req 0 0 0 %d %d" % (W, H))
+        lines += reqs(full, k)
+        lines.append("paint pal %d 0 0 %d %d 2 0" % (rng.randrange(1 << 30), W, H))
+        lines += reqs(strips, k + 1)
+        lines.append("paint pal %d 0 0 %d %d 3 0" % (rng.randrange(1 << 30), W, H))
+        lines += reqs(small, k + 2)
+        lines.append("paint tiles %d 0 0 %d %d 4 %d" % (rng.randrange(1 << 30), W, H, 4 << 4))
+        lines += reqs(small + full[:5], k + 3)
+        out.append(("\n".join(lines) + "\n", {"sb": sb, "W": W, "H": H, "enc": encname, "fmt": fmtn, "big": False,
+                                               "lossy": False, "boundary": True, "tiny": True}))
+
+    k = 0
+    for encname in ("zlib", "tight", "tightpng", "zrle"):
+        for lvl in range(10):
+            extra = " %d" % LASTRECT if (encname in ("tight", "tightpng") and lvl % 2) else ""
+            script([4, 2, 1][k % 3], fmts[(k + lvl) % len(fmts)], "enc %d %d%s" % (ENC[encname], -256 + lvl, extra), k, encname)
+            k += 1
+    # Tight without any compress-level pseudo-encoding (library default), both Tight flavours on 32 bpp depth 24
+    script(4, "rgb888le", "enc %d" % ENC["tight"], k, "tight")
+    script(4, "rgb888be", "enc %d -256" % ENC["tight"], k + 1, "tight")
+    for encname in ("raw", "rre", "corre", "hextile", "ultra"):
+        for sb in (1, 2, 4):
+            script(sb, fmts[(k + sb) % len(fmts)], "enc %d" % ENC[encname], k, encname)
+            k += 1
+    return out
+
+
 # ------------------------------------------------------------------ running one script
 def run_proc(exe, script, timeout=600):
     e = dict(os.environ)
@@ -639,6 +693,8 @@ def run(ctx):
                 cases.append(gen_script(ctx.rng, ctx.tier, {"enc": e, "sb": sb, "big": False}))
             cases.append(gen_script(ctx.rng, ctx.tier, {"enc": e, "big": True}))
         for sc in boundary_scripts(ctx.rng):
+            cases.append(sc)
+        for sc in tiny_scripts(ctx.rng):
             cases.append(sc)
         nlossy = 20 if ctx.tier == "quick" else 300
         for k in range(nlossy):
